@@ -16,6 +16,7 @@
 #include <xercesc/framework/MemBufInputSource.hpp>
 #include <xercesc/util/SecurityManager.hpp>
 #include <fstream>
+#include <set>
 
 using vh::json;
 using namespace XERCES_CPP_NAMESPACE;
@@ -57,6 +58,7 @@ static bool render(const json& pieces, std::string& out, std::string& why) {
         else if (k == "b") out.push_back(char(cp));
         else if (k == "r") { for (long i = 0; i < n; i++) out += s; }
         else if (k == "h") { for (size_t i = 0; i + 1 < s.size(); i += 2) out.push_back(char(hexv(s[i]) * 16 + hexv(s[i + 1]))); }
+        else if (k == "x") { std::string one; for (size_t i = 0; i + 1 < s.size(); i += 2) one.push_back(char(hexv(s[i]) * 16 + hexv(s[i + 1]))); for (long i = 0; i < n; i++) out += one; }
         else { why = "piece kind " + k; return false; }
     }
     return true;
@@ -177,8 +179,8 @@ static std::string handleT(const std::string& line, std::string& stat, bool& tai
         std::string dname = kind + (kind == "file" ? ":" + std::to_string(a) : kind == "part" ? ":" + d[2].dump() : "");
         cs.desc = hz + "/" + bk + "/" + std::to_string(off) + "/" + dname;
         pd::Result r;
-        // one-byte-everywhere and tiny file reads give 10^5 monotonous events per parse: they are trace-validated for one traced case in eight
-        bool rec = record && ((kind != "all1" && !(kind == "file" && a < 512)) || (caseNo / g_traceEvery) % 8 == 0);
+        // one-byte-everywhere and tiny file reads give 10^5 monotonous events per parse: compared (T) but not trace-validated
+        bool rec = record && kind != "all1" && !(kind == "file" && a < 512);
         if (kind == "mem") {
             MemBufInputSource src(reinterpret_cast<const XMLByte*>(doc.data()), doc.size(), "mem.xml", false);
             r = runCall(cs, src, (long)doc.size(), rec);
@@ -246,6 +248,116 @@ static std::string handleT(const std::string& line, std::string& stat, bool& tai
 }
 
 // ---- mode x -----------------------------------------------------------------------------------------------------------------------
+// Minimal drivers (no event dump: a recursive DOM walk of a 6000-deep document would overflow the HARNESS's stack).
+struct XRes { long fatals = 0, errors = 0, warnings = 0; std::string exception; };
+struct CountSax : public HandlerBase {
+    XRes* r;
+    explicit CountSax(XRes* x) : r(x) {}
+    void warning(const SAXParseException&) override { r->warnings++; }
+    void error(const SAXParseException&) override { r->errors++; }
+    void fatalError(const SAXParseException&) override { r->fatals++; }
+    void resetErrors() override {}
+};
+struct CountSax2 : public DefaultHandler {
+    XRes* r;
+    long ev = 0;
+    explicit CountSax2(XRes* x) : r(x) {}
+    void startElement(const XMLCh* const, const XMLCh* const, const XMLCh* const, const Attributes& a) override { ev += 1 + (long)a.getLength(); }
+    void characters(const XMLCh* const, const XMLSize_t n) override { ev += (long)n; }
+    void warning(const SAXParseException&) override { r->warnings++; }
+    void error(const SAXParseException&) override { r->errors++; }
+    void fatalError(const SAXParseException&) override { r->fatals++; }
+    void resetErrors() override {}
+};
+struct CountDom : public DOMErrorHandler {
+    XRes* r;
+    explicit CountDom(XRes* x) : r(x) {}
+    bool handleError(const DOMError& e) override {
+        if (e.getSeverity() == DOMError::DOM_SEVERITY_WARNING) r->warnings++;
+        else if (e.getSeverity() == DOMError::DOM_SEVERITY_ERROR) r->errors++;
+        else r->fatals++;
+        return true;
+    }
+};
+template <class P> static void driveX(P* p, const InputSource& src, bool progressive) {
+    if (!progressive) { p->parse(src); return; }
+    XMLPScanToken tok;
+    if (!p->parseFirst(src, tok)) return;
+    while (p->parseNext(tok)) {}
+}
+static XRes runX(const CallSpec& cs, const InputSource& src, long total, bool record, long long* idOut) {
+    long long id = ((long long)(getpid() % 2000)) * 1000000LL + (++g_callSeq % 1000000);
+    if (idOut) *idOut = id;
+    g_sink.record = record;
+    json call = {{"e", "Call"}, {"id", id}, {"api", pd::apiName(cs.cfg.api)}, {"sc", cs.cfg.scanner}, {"limit", cs.limit}, {"total", total}, {"d", cs.desc}};
+    g_sink.beginCall(call.dump());
+    flushTrace();
+    XRes r;
+    {
+        SecurityManager sm;
+        pd::Session s(cs.cfg);      // only used to build and configure the parser object
+        if (cs.limit > 0) {
+            sm.setEntityExpansionLimit((XMLSize_t)cs.limit);
+            if (s.sax()) s.sax()->setSecurityManager(&sm);
+            if (s.sax2()) s.sax2()->setProperty(XMLUni::fgXercesSecurityManager, &sm);
+            if (s.dom()) s.dom()->setSecurityManager(&sm);
+            if (s.ls()) s.ls()->getDomConfig()->setParameter(XMLUni::fgXercesSecurityManager, (const void*)&sm);
+        }
+        if (cs.lw >= 0) {
+            XMLSize_t lw = (XMLSize_t)cs.lw;
+            if (s.sax()) s.sax()->setLowWaterMark(lw);
+            if (s.sax2()) s.sax2()->setProperty(XMLUni::fgXercesLowWaterMark, &lw);
+            if (s.dom()) s.dom()->setLowWaterMark(lw);
+        }
+        CountSax h1(&r);
+        CountSax2 h2(&r);
+        CountDom hd(&r);
+        try {
+            if (s.sax()) { s.sax()->setDocumentHandler(&h1); s.sax()->setDTDHandler(&h1); s.sax()->setErrorHandler(&h1); driveX(s.sax(), src, cs.cfg.progressive); }
+            else if (s.sax2()) {
+                s.sax2()->setContentHandler(&h2); s.sax2()->setDTDHandler(&h2); s.sax2()->setLexicalHandler(&h2); s.sax2()->setDeclarationHandler(&h2); s.sax2()->setErrorHandler(&h2);
+                driveX(static_cast<SAX2XMLReaderImpl*>(s.sax2()), src, cs.cfg.progressive);
+            } else if (s.dom()) { s.dom()->setErrorHandler(&h1); driveX(s.dom(), src, cs.cfg.progressive); }
+            else if (s.ls()) {
+                s.ls()->getDomConfig()->setParameter(XMLUni::fgDOMErrorHandler, (const void*)&hd);
+                Wrapper4InputSource in(const_cast<InputSource*>(&src), false);
+                s.ls()->parse(&in);
+            }
+        } catch (const OutOfMemoryException&) { r.exception = "OutOfMemoryException"; }
+        catch (const SAXParseException&) { r.exception = "SAXParseException"; }
+        catch (const SAXException&) { r.exception = "SAXException"; }
+        catch (const XMLException& e) { r.exception = "XMLException:" + vh::to8(e.getType()); }
+        catch (const DOMLSException& e) { r.exception = "DOMLSException:" + std::to_string((int)e.code); }
+        catch (const DOMException& e) { r.exception = "DOMException:" + std::to_string((int)e.code); }
+        catch (const std::exception&) { r.exception = "std::exception"; }
+        catch (...) { r.exception = "unknown"; }
+        if (s.sax()) { s.sax()->setDocumentHandler(0); s.sax()->setDTDHandler(0); s.sax()->setErrorHandler(0); }
+        if (s.sax2()) { s.sax2()->setContentHandler(0); s.sax2()->setDTDHandler(0); s.sax2()->setLexicalHandler(0); s.sax2()->setDeclarationHandler(0); s.sax2()->setErrorHandler(0); }
+        if (s.dom()) s.dom()->setErrorHandler(0);
+        if (s.ls()) s.ls()->getDomConfig()->setParameter(XMLUni::fgDOMErrorHandler, (const void*)0);
+    }   // the parser object (and a DOM tree) is destroyed inside the call
+    pd::Result pr;
+    pr.fatals = r.fatals;
+    pr.exception = r.exception;
+    json ret = {{"e", "Return"}, {"kind", retKind(pr)}, {"fatals", r.fatals}};
+    g_sink.endCall(ret.dump());
+    flushTrace();
+    g_sink.record = false;
+    return r;
+}
+// UBSan runs in recover mode and logs to <tmpdir>/san.<pid>: what a call added to the log is that call's report
+static long g_sanSize = 0;
+static std::string newSanitizerText() {
+    std::string p = g_tmpdir + "/san." + std::to_string((long)getpid());
+    FILE* f = fopen(p.c_str(), "r");
+    if (!f) return "";
+    fseek(f, 0, SEEK_END);
+    long sz = ftell(f);
+    std::string t;
+    if (sz > g_sanSize) { t.resize((size_t)(sz - g_sanSize)); fseek(f, g_sanSize, SEEK_SET); size_t k = fread(&t[0], 1, t.size(), f); t.resize(k); g_sanSize = sz; }
+    fclose(f);
+    return t;
+}
 static std::string handleX(const std::string& line, std::string& stat, bool& tainted) {
     json c = json::parse(line, nullptr, false);
     if (c.is_discarded()) { stat += "torn"; return ""; }
@@ -263,30 +375,56 @@ static std::string handleX(const std::string& line, std::string& stat, bool& tai
     cs.cfg.progressive = c.value("prog", false);
     cs.limit = c.value("limit", 0);
     cs.lw = c.value("lw", -1);
-    cs.desc = c.value("d", "");
+    cs.desc = std::to_string(c.value("id", 0)) + "|" + c.value("d", "");
     const std::string dl = c.value("dl", "mem");
     bool record = g_traceEvery > 0 && (g_caseNo++ % g_traceEvery) == 0;
-    pd::Result r;
+    XRes r;
     long long id = 0;
     if (dl == "mem") {
         MemBufInputSource src(reinterpret_cast<const XMLByte*>(doc.data()), doc.size(), "mem.xml", false);
-        r = runCall(cs, src, (long)doc.size(), record, &id);
+        r = runX(cs, src, (long)doc.size(), record, &id);
     } else {
         RT::Partition p;
         p.winLo = 0; p.winHi = doc.size();
         p.pattern = dl == "one" ? std::vector<int>{1} : std::vector<int>{3, 1, 2};
         RT::PartSource src(doc, p, "part.xml");
-        r = runCall(cs, src, (long)doc.size(), record, &id);
+        r = runX(cs, src, (long)doc.size(), record, &id);
     }
-    const std::string kind = retKind(r);
+    pd::Result pr;
+    pr.fatals = r.fatals;
+    pr.exception = r.exception;
+    const std::string kind = retKind(pr);
+    std::string outl = vh::dumpLine({{"t", "ret"}, {"id", c.value("id", 0)}, {"kind", kind}, {"fatals", r.fatals}, {"errors", r.errors}, {"call", id}});
     stat += "calls\tret:" + kind + "\tapi:" + std::string(pd::apiName(cs.cfg.api)) + "\tsc:" + cs.cfg.scanner + "\tdl:" + dl + (record ? "\ttraced_calls" : "");
+    json caseJ = {{"mode", "X"}, {"id", c.value("id", 0)}, {"d", c.value("d", "")}, {"api", pd::apiName(cs.cfg.api)}, {"sc", cs.cfg.scanner}, {"cfg", cs.cfg.toJson()}, {"limit", cs.limit}, {"dl", dl}, {"doc", c["doc"]}};
+    if (caseJ["doc"].dump().size() > 3000) caseJ["doc"] = "(large: see the generator, label " + c.value("d", "") + ")";
+    // undefined behaviour reported by UBSan during this call
+    std::string san = newSanitizerText();
+    size_t pos = 0;
+    std::set<std::string> seen;
+    while ((pos = san.find("runtime error:", pos)) != std::string::npos) {
+        size_t ls = san.rfind('\n', pos);
+        ls = ls == std::string::npos ? 0 : ls + 1;
+        size_t le = san.find('\n', pos);
+        std::string l = san.substr(ls, (le == std::string::npos ? san.size() : le) - ls);
+        pos += 10;
+        std::string loc = l.substr(0, l.find(": runtime error"));          // /path/File.cpp:LINE:COL
+        size_t sl = loc.rfind('/');
+        if (sl != std::string::npos) loc = loc.substr(sl + 1);
+        size_t c2 = loc.rfind(':');
+        if (c2 != std::string::npos && loc.find(':') != c2) loc = loc.substr(0, c2);   // drop the column
+        std::string what = l.substr(l.find("runtime error:") + 15);
+        if (!seen.insert(loc).second) continue;
+        stat += "\tubsan_reports";
+        outl += vh::dumpLine({{"t", "mismatch"}, {"cls", {{"binder", "V"}, {"kind", "ubsan"}, {"where", loc}}}, {"case", caseJ},
+                              {"why", "undefined behaviour inside a parser call: " + loc + ": " + what}});
+    }
     if (kind.compare(0, 8, "Foreign:") == 0) {
         tainted = true;
-        return vh::dumpLine({{"t", "mismatch"}, {"cls", {{"binder", "V"}, {"kind", "foreign-exception"}, {"what", kind}, {"api", pd::apiName(cs.cfg.api)}}},
-                             {"case", {{"mode", "X"}, {"id", c.value("id", 0)}, {"d", cs.desc}, {"cfg", cs.cfg.toJson()}, {"doc", c["doc"]}}},
-                             {"why", "parse() ended with " + kind + ", which is not a return kind of ParserCall"}});
+        outl += vh::dumpLine({{"t", "mismatch"}, {"cls", {{"binder", "V"}, {"kind", "foreign-exception"}, {"what", kind}, {"api", pd::apiName(cs.cfg.api)}}},
+                              {"case", caseJ}, {"why", "parse() ended with " + kind + ", which is not a return kind of ParserCall"}});
     }
-    return "";
+    return outl;
 }
 
 int main(int argc, char** argv) {
@@ -297,19 +435,40 @@ int main(int argc, char** argv) {
     g_tmpdir = argv[4];
     vh::Supervisor sup;
     sup.timeoutSec = argc > 5 ? atoi(argv[5]) : 120;
-    sup.batch = mode == "x" ? 16 : 4;
+    sup.batch = argc > 6 ? atoi(argv[6]) : (mode == "x" ? 16 : 4);
+    const long maxFails = argc > 7 ? atol(argv[7]) : 8;       // after that many dead children the rest of the input is skipped (and counted)
     sup.initChild = childInit;
+    g_sink.depthGuard = 3000;
     if (mode == "t") sup.handle = handleT;
     else sup.handle = handleX;
     sup.onFail = [mode](const std::string& line, const std::string& what) {
         json cs = {{"mode", mode == "t" ? "T" : "X"}, {"what", what}};
         json c;
-        std::string d;
-        if (mode == "t") { if (vh::decode_tlc_line(line, c)) { cs["hz"] = c["hz"]; cs["bk"] = c["bk"]; cs["off"] = c["off"]; d = c["hz"].get<std::string>(); } }
-        else { c = json::parse(line, nullptr, false); if (!c.is_discarded()) { cs["id"] = c.value("id", 0); cs["d"] = c.value("d", ""); cs["doc"] = c["doc"]; cs["api"] = c.value("api", ""); cs["sc"] = c.value("sc", ""); d = c.value("d", ""); } }
+        if (mode == "t") { if (vh::decode_tlc_line(line, c)) { cs["hz"] = c["hz"]; cs["bk"] = c["bk"]; cs["off"] = c["off"]; } }
+        else { c = json::parse(line, nullptr, false); if (!c.is_discarded()) { cs["id"] = c.value("id", 0); cs["d"] = c.value("d", ""); cs["doc"] = c["doc"].dump().size() > 3000 ? json("(large: see the generator, label " + c.value("d", "") + ")") : c["doc"]; cs["dl"] = c.value("dl", ""); cs["limit"] = c.value("limit", 0); cs["api"] = c.value("api", ""); cs["sc"] = c.value("sc", ""); } }
         std::string k = what.compare(0, 4, "hang") == 0 ? "hang" : "crash";
-        return vh::dumpLine({{"t", "mismatch"}, {"cls", {{"binder", mode == "t" ? "T" : "V"}, {"kind", k}, {"what", what}}}, {"case", cs},
+        json cls = {{"binder", mode == "t" ? "T" : "V"}, {"kind", k}, {"what", what}};
+        if (mode == "t" && cs.contains("hz")) cls["hz"] = cs["hz"];
+        return vh::dumpLine({{"t", "mismatch"}, {"cls", cls}, {"case", cs},
                              {"why", "the implementation did not return from a parser call (" + what + ")"}});
     };
-    return sup.run();
+    // vh::Supervisor::run with a cap on dead children
+    signal(SIGPIPE, SIG_IGN);
+    sup.spawn();
+    std::string line;
+    std::vector<std::string> lines;
+    long skipped = 0;
+    while (std::getline(std::cin, line)) {
+        sup.nlines++;
+        if (sup.fails >= maxFails) { skipped++; continue; }
+        lines.push_back(line);
+        if ((int)lines.size() >= sup.batch) { sup.runBatch(lines, 0, lines.size()); lines.clear(); }
+    }
+    if (!lines.empty() && sup.fails < maxFails) sup.runBatch(lines, 0, lines.size());
+    else skipped += (long)lines.size();
+    sup.reap(true);
+    sup.counts["skipped_after_failures"] += skipped;
+    vh::emit({{"t", "summary"}, {"lines", sup.nlines}, {"child_failures", sup.fails}, {"respawns", sup.respawns}, {"counts", sup.counts}});
+    fflush(stdout);
+    return 0;
 }
